@@ -1,6 +1,8 @@
 SPECIFICATION Spec
 CONSTANTS
   Chunks = 3
+  RequireEnd = TRUE
   PreDest = "absent"
+CONSTRAINT StateBound
 INVARIANTS DestNeverPartial PublishedOnlyWhenComplete FailureLeavesNothing KillLeavesDest
 CHECK_DEADLOCK FALSE
